@@ -206,12 +206,13 @@ def sources(shape):
 
 
 def check_propagation(e0: int, e1: int, e2: int, e3: int, e4: int, e5: int, e6: int, e7: int, e8: int, e9: int,
-                      e10: int, e11: int, e12: int, e13: int, e14: int, e15: int, src: int, op: int) -> bool:
+                      e10: int, e11: int, e12: int, e13: int, e14: int, e15: int, e16: int, e17: int, e18: int, e19: int,
+                      src: int, op: int) -> bool:
     """
-    pre: _pre((e0, e1, e2, e3, e4, e5, e6, e7, e8, e9, e10, e11, e12, e13, e14, e15), src, op)
+    pre: _pre((e0, e1, e2, e3, e4, e5, e6, e7, e8, e9, e10, e11, e12, e13, e14, e15, e16, e17, e18, e19), src, op)
     post: _
     """
-    ch = _choices((e0, e1, e2, e3, e4, e5, e6, e7, e8, e9, e10, e11, e12, e13, e14, e15))
+    ch = _choices((e0, e1, e2, e3, e4, e5, e6, e7, e8, e9, e10, e11, e12, e13, e14, e15, e16, e17, e18, e19))
     shape = tuple(SLICE["shape"])
     res = run_graph(shape, ch, sources(shape)[src], OPS[op])
     kind, why = judge(res, SLICE.get("mode", "all"))
@@ -221,12 +222,13 @@ def check_propagation(e0: int, e1: int, e2: int, e3: int, e4: int, e5: int, e6: 
 
 
 def check_propagation_reach(e0: int, e1: int, e2: int, e3: int, e4: int, e5: int, e6: int, e7: int, e8: int, e9: int,
-                            e10: int, e11: int, e12: int, e13: int, e14: int, e15: int, src: int, op: int) -> bool:
+                            e10: int, e11: int, e12: int, e13: int, e14: int, e15: int, e16: int, e17: int, e18: int, e19: int,
+                      src: int, op: int) -> bool:
     """
-    pre: _pre((e0, e1, e2, e3, e4, e5, e6, e7, e8, e9, e10, e11, e12, e13, e14, e15), src, op)
+    pre: _pre((e0, e1, e2, e3, e4, e5, e6, e7, e8, e9, e10, e11, e12, e13, e14, e15, e16, e17, e18, e19), src, op)
     post: _
     """
-    ch = _choices((e0, e1, e2, e3, e4, e5, e6, e7, e8, e9, e10, e11, e12, e13, e14, e15))
+    ch = _choices((e0, e1, e2, e3, e4, e5, e6, e7, e8, e9, e10, e11, e12, e13, e14, e15, e16, e17, e18, e19))
     shape = tuple(SLICE["shape"])
     res = run_graph(shape, ch, sources(shape)[src], OPS[op])
     return not (len(res["want_sym"]) >= 2 and res["got_sym"] == res["want_sym"])
@@ -263,15 +265,16 @@ KNOWN_POS = {TAG_KEYWORD.ARG0: 1, TAG_KEYWORD.ARG1: 2, TAG_KEYWORD.ARG2: 3, TAG_
 WILDCARD = (TAG_KEYWORD.TARGET, "")
 
 
-def run_sink(present, tainted, targets, rule_op="call_stmt"):
-    """call_stmt `sink(...)` whose operand at position k exists iff present[k] and carries bit k+1 iff tainted[k].
-    Returns (got_tag or 'raised X', want_tag)."""
+def run_sink(present, tainted, targets, rule_op="call_stmt", object_call=False):
+    """call_stmt `sink(...)` (or object_call_stmt `db.sink(...)`) whose operand at position k exists iff present[k] and carries
+    bit k+1 iff tainted[k].  Returns (got_tag or 'raised X', want_tag)."""
     g = StateFlowGraph(1)
-    stmt = types.SimpleNamespace(name="sink", start_row=3, operation="call_stmt")
-    node = SFGNode(node_type=NK.STMT, def_stmt_id=50, name="call_stmt")
+    opname = "object_call_stmt" if object_call else "call_stmt"
+    stmt = types.SimpleNamespace(name="sink", start_row=3, operation=opname, receiver_object="db", field="sink")
+    node = SFGNode(node_type=NK.STMT, def_stmt_id=50, name=opname)
     node.stmt = stmt
     node.line_no = 3
-    node.operation = "call_stmt sink"
+    node.operation = opname + " sink"
     g.graph.add_node(node)
     env = TaintEnv()
     preds = {}
@@ -296,12 +299,15 @@ def run_sink(present, tainted, targets, rule_op="call_stmt"):
     except Exception as e:  # noqa
         got = f"raised {type(e).__name__}"
     want = 0
-    if rule_op == "call_stmt":
+    if rule_op == "call_stmt" or object_call:
         for t in targets:
             for k in range(len(present)):
                 if not (present[k] and tainted[k]):
                     continue
-                if t in WILDCARD or KNOWN_POS.get(t, -99) == k:
+                pos = KNOWN_POS.get(t, -99)
+                if object_call and pos > 0:
+                    pos += 1                  # object call: receiver at 0, callee name at 1, arguments from 2
+                if t in WILDCARD or pos == k:
                     want |= 1 << (k + 1)
     return got, want
 
@@ -310,7 +316,7 @@ def _sink_pre(s0, s1, s2, t0, t1, op):
     for v in (s0, s1, s2):
         if not (0 <= v <= 2):
             return False
-    if not (0 <= op <= 1) or op not in SLICE.get("op", [0]):
+    if not (0 <= op <= 2) or op not in SLICE.get("op", [0]):
         return False
     nt = len(TARGETS)
     if not (0 <= t0 < nt) or not (t1 == -1 or 0 <= t1 < nt):
@@ -332,7 +338,10 @@ def check_sink_positions(s0: int, s1: int, s2: int, t0: int, t1: int, op: int) -
     targets = [TARGETS[t0]] + ([TARGETS[t1]] if t1 >= 0 else [])
     present = [int(v > 0) for v in (s0, s1, s2)]
     tainted = [int(v == 2) for v in (s0, s1, s2)]
-    got, want = run_sink(present, tainted, targets, "call_stmt" if op == 0 else "field_write")
+    if op == 2:                               # object call: operands at positions 0 (receiver), 2, 3 (arguments 0 and 1)
+        present = [present[0], 0, present[1], present[2]]
+        tainted = [tainted[0], 0, tainted[1], tainted[2]]
+    got, want = run_sink(present, tainted, targets, "field_write" if op == 1 else "call_stmt", object_call=(op == 2))
     if got != want:
         return fail("sink-position", present=present, tainted=tainted, targets=[t0, t1], op=op, got=str(got), want=want)
     return True
@@ -345,9 +354,10 @@ def replay(func, cex):   # noqa: F811
     if func == "check_sink_positions":
         t0, t1 = cex["targets"]
         targets = [TARGETS[t0]] + ([TARGETS[t1]] if t1 >= 0 else [])
-        got, want = run_sink(cex["present"], cex["tainted"], targets, "call_stmt" if cex["op"] == 0 else "field_write")
+        got, want = run_sink(cex["present"], cex["tainted"], targets, "field_write" if cex["op"] == 1 else "call_stmt",
+                             object_call=(cex["op"] == 2))
         return {"violated": got != want, "observed": str(got),
-                "what": f"sink rule (operation {'call_stmt' if cex['op'] == 0 else 'field_write'}, target {targets}) on call sink(...) with "
+                "what": f"sink rule (operation {['call_stmt', 'field_write', 'object_call'][cex['op']]}, target {targets}) on {'db.sink' if cex['op'] == 2 else 'sink'}(...) with "
                         f"operands present at positions {[k for k in range(len(cex['present'])) if cex['present'][k]]}, tainted "
                         f"{[k for k in range(len(cex['present'])) if cex['present'][k] and cex['tainted'][k]]}: sink tag {got}, designated positions give {want}",
                 "fingerprint": f"sink-position:{targets}:{'raise' if isinstance(got, str) else 'tag'}"}
